@@ -271,7 +271,7 @@ def c09_shapes():
         ('ic_tok', T('ab', ignore_case=True)), ('ic_regex', R('ab', ignore_case=True)), ('cls_lit', R('[a]bc')),
         ('opt_group', R('a(bc)?d')), ('lazy', R('a+?b')),
         ('alt_zero_first', R('(?:_*|r#)[a-z]+')), ('alt_zero_mid', R('(?:xyz|[0-9]*|pq)[a-z]')), ('alt_zero_last', R('(?:r#|_*)[a-z]')),
-        ('alt_opt_first', R('(x?|yz)w')), ('alt_look', R('(?:$|ab)c|d')), ('alt_empty', R('(|ab)cd')), ('alt_rep0', R('(ab){0,2}c|dd')),
+        ('alt_opt_first', R('(x?|yz)w')), ('alt_look', R(r'x(?-u:\b|yz)w|qqq')), ('alt_empty', R('(|ab)cd')), ('alt_rep0', R('(ab){0,2}c|dd')),
     ]
     B = [
         ('b_tok', T(b'\xC3\xA9')), ('b_regex_utf8', R(b'\xC3\xA9')), ('b_regex_raw', R(b'\xFF\xFE')), ('b_class', R(b'[\x80-\xFF]a')),
@@ -332,6 +332,11 @@ def c09(tier, seed):
         case = {'shape': name, 'pattern': corpus.rust_lit(dd.variants[0].pats[0].lit), 'kind': dd.variants[0].pats[0].kind,
                 'documented_default': meta[name], 'probe_priority': meta[name] + delta, 'derive': v['status'], 'ambiguity': amb}
         cases.append(case)
+        if v['status'] == 'rejected' and not amb:
+            # rejected for a reason that has nothing to do with priorities (e.g. no universal start state):
+            # the shape cannot probe the default priority
+            case['note'] = 'unusable shape: ' + (v['errors'][0][:80] if v['errors'] else '')
+            continue
         if delta == 0:
             if not amb:
                 info = {'property': 'C09', 'case': case, 'derive': v, 'source': corpus.render_enum(dd)}
